@@ -27,6 +27,8 @@ func main() {
 		cmdAuth(os.Args[2:])
 	case "schema":
 		cmdSchema(os.Args[2:])
+	case "dl":
+		cmdDL(os.Args[2:])
 	case "tq":
 		cmdTQ(os.Args[2:])
 	default:
